@@ -51,6 +51,18 @@ int main (void)
     else if (!strcmp (op, "subia")) { sc_uint128_sub_inplace (&x, &x); p128 (&x); }
     else if (!strcmp (op, "oria")) { sc_uint128_bitwise_or_inplace (&x, &x); p128 (&x); }
     else if (!strcmp (op, "andia")) { sc_uint128_bitwise_and_inplace (&x, &x); p128 (&x); }
+    /* documented aliasing of the out-of-place functions */
+    else if (!strcmp (op, "shrio")) { sc_uint128_shift_right (&x, (int) a[2], &x); p128 (&x); }
+    else if (!strcmp (op, "shlio")) { sc_uint128_shift_left (&x, (int) a[2], &x); p128 (&x); }
+    else if (!strcmp (op, "negio")) { sc_uint128_bitwise_neg (&x, &x); p128 (&x); }
+    else if (!strcmp (op, "orra")) { sc_uint128_bitwise_or (&x, &y, &x); p128 (&x); }
+    else if (!strcmp (op, "orrb")) { sc_uint128_bitwise_or (&x, &y, &y); p128 (&y); }
+    else if (!strcmp (op, "orrab")) { sc_uint128_bitwise_or (&x, &x, &x); p128 (&x); }
+    else if (!strcmp (op, "andra")) { sc_uint128_bitwise_and (&x, &y, &x); p128 (&x); }
+    else if (!strcmp (op, "andrb")) { sc_uint128_bitwise_and (&x, &y, &y); p128 (&y); }
+    else if (!strcmp (op, "andrab")) { sc_uint128_bitwise_and (&x, &x, &x); p128 (&x); }
+    else if (!strcmp (op, "addab")) { sc_uint128_add (&x, &x, &r); p128 (&r); }
+    else if (!strcmp (op, "subab")) { sc_uint128_sub (&x, &x, &r); p128 (&r); }
     else if (!strcmp (op, "neg")) { sc_uint128_bitwise_neg (&x, &r); p128 (&r); }
     else if (!strcmp (op, "shr")) { sc_uint128_shift_right (&x, (int) a[2], &r); p128 (&r); }
     else if (!strcmp (op, "shl")) { sc_uint128_shift_left (&x, (int) a[2], &r); p128 (&r); }
